@@ -30,16 +30,32 @@ OVERLAY = {
     "core/timex/relativetime.go": os.path.join(vlib.HARNESS, "overlay/timex/relativetime.go"),
 }
 
+SQLM = ["MExec", "MPrepare", "MQueryRow", "MQueryRowPartial", "MQueryRows", "MQueryRowsPartial", "MTransact"]
 WK = ["WGrpcClient", "WGrpcServerUnary", "WGrpcServerStream", "WRedisCmd", "WRedisIgnoredCmd", "WRedisPipeline",
-      "WRedisReal", "WSqlExec", "WSqlPredicate"]
+      "WRedisReal", "WSqlExec", "WSqlPredicate", "(WSqlM MExec false)"]
+WK += ["(WSqlM %s true)" % m for m in SQLM[1:]] + ["(WSqlM %s false)" % m for m in SQLM[1:]]   # 10..15, 16..21
+SQL_KINDS = list(range(7, 22))
+SQL_QUERY_KINDS = (11, 12, 13, 14, 17, 18, 19, 20)
 DERR = ["DNil", None, "DCtxCanceled", "DCtxDeadline", "DBreakerUnavailable", "DRedisNil", "DWrappedRedisNil",
-        "DSqlNoRows", "DSqlTxDone", "DSqlAcceptable", "DOther", "DPanic", "DWrappedCanceled"]
+        "DSqlNoRows", "DSqlTxDone", "DSqlAcceptable", "DOther", "DPanic", "DWrappedCanceled", None, "DSqlConnErr",
+        "DSqlScanFail", "DSqlScanDeadline"]
+SQL_CUSTOM = (10, 11, 12, 21, 22, 31, 32)    # 10*i + n: accepted iff 1 <= i <= n
+
+
+def sql_classes(k):
+    """(class, code) pairs a sqlx wrapper kind understands"""
+    cl = [(c, 0) for c in (0, 2, 3, 4, 7, 8, 9, 10, 12)] + [(13, x) for x in SQL_CUSTOM]
+    if k != 8:
+        cl.append((14, 0))
+    if k in SQL_QUERY_KINDS:
+        cl += [(15, 0), (16, 0)]
+    return cl
 # wrapper executors: case["w"] -> (go package, overlay test file, downstream classes it understands)
 WPKG = {
     "grpcc": ("zrpc/internal/clientinterceptors", "grpc_client_verif_test.go", [0], [0, 1, 2, 3, 4, 10, 11, 12]),
     "grpcs": ("zrpc/internal/serverinterceptors", "grpc_server_verif_test.go", [1, 2], [0, 1, 2, 3, 4, 10, 11, 12]),
     "redis": ("core/stores/redis", "redis_verif_test.go", [3, 4, 5, 6], [0, 2, 3, 4, 5, 6, 10, 11, 12]),
-    "sql": ("core/stores/sqlx", "sqlx_verif_test.go", [7, 8], [0, 2, 3, 4, 7, 8, 9, 10, 12]),
+    "sql": ("core/stores/sqlx", "sqlx_verif_test.go", SQL_KINDS, [0, 2, 3, 4, 7, 8, 9, 10, 12]),
     "rest": ("rest/handler", "rest_verif_test.go", [], []),
 }
 
@@ -211,7 +227,7 @@ class C01(Property):
         if rc != 0 or len(res) != 1 or res[0].get("err"):
             return False, out + "\n" + str(res)
         smoke = [{"id": 0, "w": "grpcc", "wcalls": [[0, 0, 0, 0, 0]]}, {"id": 1, "w": "grpcs", "wcalls": [[1, 0, 0, 0, 0]]},
-                 {"id": 2, "w": "redis", "wcalls": [[3, 0, 0, 0, 0]]}, {"id": 3, "w": "sql", "wcalls": [[7, 0, 0, 0, 0]]},
+                 {"id": 2, "w": "redis", "wcalls": [[3, 0, 0, 0, 0]]}, {"id": 3, "w": "sql", "wcalls": [[7, 0, 0, 0, 0], [13, 0, 0, 0, 0]]},
                  {"id": 4, "w": "rest", "base": 10 ** 15, "reqs": [[0, 200, 0, 0, 0]]}]
         try:
             self._run_wrappers(smoke)
@@ -522,29 +538,41 @@ class C01(Property):
         calls = []
         for _ in range(rng.randint(8, 40)):
             k = rng.choice(kinds)
+            if w == "sql":
+                cls, code = rng.choice(sql_classes(k))
+                calls.append([k, rng.choice([0, 0, 1]), rng.choice([0, 0, 0, 1]), cls, code])
+                continue
             cls = rng.choice(classes)
             if k == 6:
                 cls = rng.choice([0, 5, 10])
-            if k in (7, 8) and cls == 11:
-                cls = 10
             calls.append([k, rng.choice([0, 0, 1]), rng.choice([0, 0, 0, 1]), cls, rng.randint(1, 16) if cls == 1 else 0])
         return {"w": w, "wcalls": calls}
 
     def _wrapper_corpus(self):
         cs = []
-        for w in ("grpcc", "grpcs", "redis", "sql"):
+        for w in ("grpcc", "grpcs", "redis"):
             _, _, kinds, classes = WPKG[w]
             calls = []
             for k in kinds:
-                cl = [0, 5, 10] if k == 6 else [c for c in classes if not (k in (7, 8) and c == 11)]
+                cl = [0, 5, 10] if k == 6 else classes
                 for cls in cl:
                     for code in (range(1, 17) if cls == 1 else [0]):
-                        for rej in ((0,) if k == 8 else (0, 1)):
-                            for cd in ((0,) if k == 8 else (0, 1)):
+                        for rej in (0, 1):
+                            for cd in (0, 1):
                                 if k == 6 and rej + cd == 2:
                                     continue
                                 calls.append([k, rej, cd, cls, code])
             cs.append({"w": w, "wcalls": calls})
+        # sqlx: every breaker-wrapped method x every error class it can meet, admitted; rejected and
+        # done-context once per class with a rotating method
+        calls = []
+        for k in SQL_KINDS:
+            for j, (cls, code) in enumerate(sql_classes(k)):
+                calls.append([k, 0, 0, cls, code])
+                if k != 8 and j % 5 == k % 5:
+                    calls += [[k, 1, 0, cls, code], [k, 0, 1, cls, code], [k, 1, 1, cls, code]]
+        cs.append({"w": "sql", "wcalls": calls[0::2]})
+        cs.append({"w": "sql", "wcalls": calls[1::2]})
         B = 10 ** 15 + 777
         big = TWO53 - 1
         # REST: 2xx/4xx accepted, 5xx rejected, a panicking handler, then throttling with forced draws
@@ -656,6 +684,8 @@ class C01(Property):
                                           " ".join(cz(x) for x in o[6:16]))
 
     def _derr(self, cls, code):
+        if cls == 13:
+            return "(DSqlCustom %d %d)" % (code // 10, code % 10)
         return "(DStatus %s)" % cz(code) if cls == 1 else DERR[cls]
 
     def _seen(self, kind, code):
